@@ -301,6 +301,11 @@ func StatementProcessor(gs *gripql.GraphStatement, db gdbi.GraphInterface, ps *p
 		if ps.LastType != gdbi.VertexData && ps.LastType != gdbi.EdgeData {
 			return nil, fmt.Errorf(`"select" statement is only valid for edge or vertex types not: %s`, ps.LastType.String())
 		}
+		for _, m := range stmt.Select.Marks {
+			if _, ok := ps.MarkTypes[m]; !ok {
+				return nil, fmt.Errorf(`"select" statement refers to mark '%s' which is not defined`, m)
+			}
+		}
 		switch len(stmt.Select.Marks) {
 		case 0:
 			return nil, fmt.Errorf(`"select" statement has an empty list of mark names`)
